@@ -117,6 +117,7 @@ def add(a, b):
     c = norm_num(c)
     if not terms: return c
     srt = 'R' if (any(t.sort == 'R' for t in terms) or isinstance(c, Fraction)) else 'I'
+    terms.sort(key=lambda t: t.id)          # canonical order: equal sums are the same node
     if len(terms) == 1 and c == 0 and terms[0].sort == srt: return terms[0]
     if len(terms) == 1 and terms[0].op == 'ite' and not is_t(terms[0].args[1]) and not is_t(terms[0].args[2]):
         t0 = terms[0]
@@ -165,12 +166,17 @@ def div(a, b):
             raise Unsupported('div by nan')
         if b == 0: raise ZeroDivisionError('symx: division by concrete zero')
         return mul(Fraction(1, 1) / Fraction(b), a) if is_t(a) else norm_num(Fraction(a) / Fraction(b))
-    if is_t(b) and b.op == 'ite' and (_leafy(b) or _nleaves(b) <= 40):
+    if is_t(b) and b.op == 'ite' and _nleaves(b) <= 40 and _nonzero_leaves(b):
         # division by a case split (max/abs chains): divide inside each case, so every quotient has a plain divisor
         return ite(b.args[0], div(a, b.args[1]), div(a, b.args[2]))
     if is_t(b) and b.op == 'mul' and not is_t(b.args[0]):
         return div(div(a, b.args[0]), b.args[1])
     return mk('rdiv', [a, b], 'R')
+
+def _nonzero_leaves(t):
+    if not is_t(t): return t != 0
+    if t.op != 'ite': return True
+    return _nonzero_leaves(t.args[1]) and _nonzero_leaves(t.args[2])
 
 def _nleaves(t, lim=41):
     if not is_t(t) or t.op != 'ite': return 1
